@@ -13,7 +13,7 @@ def run(check, pool, Task):
                          'outside': 'the three pandas merge chains (inner/left/right), suffix handling, index restoration and _record_reset_index: pandas internals, '
                                     'no symbolic encoding within reach; the property is claimed at this partial strength only'})
     check.stubs += ['left_df.geometry.sindex.intersects(b): exactly the rows whose non-NaN bounds overlap b, in an arbitrary order (contract proved under C03)',
-                    'left_geom.intersects(shape, inds) -> uninterpreted Bool J[l,r] with J => bounds overlap (C02/C13)', 'right_geom[i] -> opaque shape',
+                    'left_geom.intersects(shape, inds) -> uninterpreted Bool J[l,r] with J => bounds overlap (C02/C13)', 'right_geom[i] -> opaque shape, or None for a missing element (then left_geom.intersects raises as the real one does)', 'sindex.intersects with a NaN query box -> arbitrary subset of the rows (outside the C03 contract)',
                     'pd.DataFrame({...}) -> records the key table']
     fam = [(0, 2, []), (2, 0, [0, 1]), (1, 1, [0]), (2, 1, [0, 1]), (2, 1, [1, 0]), (2, 2, [0, 1]), (2, 2, [1, 0]), (3, 2, [2, 0, 1]), (1, 3, [0])]
     if thorough:
@@ -27,7 +27,11 @@ def run(check, pool, Task):
         if r['status'] == 'violated':
             bad, wit = c05.replay(m['nl'], m['nr'], r['model'], r.get('rect', False))
             if bad:
-                v = check.violation(f"C05:pairs:{wit.get('right_kind')}", f"sjoin(inner) pairs {wit.get('got')} but exactly {wit.get('expected')} intersect", wit)
+                key = f"C05:pairs:{wit.get('right_kind')}"
+                if str(wit.get('got')).startswith('raises') and any(s_ is None for s_ in wit.get('right_shapes', [])):
+                    key = 'C05:raises:missing-right-geometry'
+                v = check.violation(key, f"sjoin(inner) of left points {wit.get('left_points')} and right shapes {wit.get('right_shapes')}: {wit.get('got')} "
+                                         f"but exactly the pairs {wit.get('expected')} intersect", wit)
                 check.record(t.name, dict(r, status='known-finding' if v == 'known' else 'violated'), 'paths', m)
             else:
                 check.record(t.name, dict(r, status='inconclusive', detail=f'symbolic counterexample not reproduced through the public API: {str(wit)[:300]}'), 'paths', m)
